@@ -36,7 +36,7 @@ def regions_of(model, info):
 
 
 def run(ctx, chk):
-    fb = ctx.facts('dev')
+    fb = ctx.facts()
     chk.explanation = ('Decision table of the status component of ClockErrorBound::now() (bound computation '
                        'inlined), extracted over stored status x canonical time atoms, checked against the '
                        'oracle for every (stored status, region) pair; grace constant evaluated by rustc; '
